@@ -413,6 +413,12 @@ const (
 	// reversed to its native direction keeps non-monotone clusters inside a grapheme (the same
 	// defect as C01-level1-reverse-graphemes / C05-reverse-graphemes-cluster-level)
 	fLevel1 = "C18-level1-reverse-graphemes"
+	// syllabicInsertDottedCircles (like upstream's hb_syllabic_insert_dotted_circles) inserts one
+	// dotted circle per broken syllable by comparing the syllable byte (4-bit serial, wrapping
+	// 1..15, + type) with the last broken one: a broken syllable exactly 15 (30, ...) syllables
+	// after the previous broken one has the same byte and gets no dotted circle, although the same
+	// text shaped from that syllable on does.
+	fSerialWrap = "C18-dotted-circle-serial-wraparound"
 )
 
 var rtlScripts = map[language.Script]bool{
@@ -620,6 +626,26 @@ func checkCase(t ev.TB, fe *fontEntry, c *Case, survey func(check string, f fail
 		same = recon[i].same(whole[i])
 	}
 	if !same {
+		if dc, ok := fe.face.NominalGlyph(0x25CC); ok && ev.Known(fSerialWrap) {
+			strip := func(gs []G) []G {
+				var out []G
+				for _, g := range gs {
+					if g.ID != uint32(dc) {
+						out = append(out, g)
+					}
+				}
+				return out
+			}
+			a, b := strip(whole), strip(recon)
+			eq := len(a) == len(b) && len(whole) != len(recon)
+			for i := 0; eq && i < len(a); i++ {
+				eq = a[i].same(b[i])
+			}
+			if eq {
+				ev.Excluded(fSerialWrap)
+				return
+			}
+		}
 		fail("cut", recon, cuts, "shaping the pieces cut at safe boundaries does not reproduce the whole-text shaping")
 	}
 }
